@@ -110,7 +110,7 @@ def post_batch(tier, seed, total, extra):
                        "detail": {"hashseeds": [seeds[0], hs], "first_differing_dump": next(
                            (j for j, (a, b) in enumerate(zip(base["hashes"], r["hashes"])) if a != b), None)}}
             if bad is not None:
-                path = os.path.join(core.VERIF, "replays", "C08-hashseed-%d-%d.json" % (seed, i))
+                path = os.path.join(os.environ.get("VERIF_REPLAY_DIR") or os.path.join(core.VERIF, "replays"), "C08-hashseed-%d-%d.json" % (seed, i))
                 os.makedirs(os.path.dirname(path), exist_ok=True)
                 with open(path, "w") as f:
                     json.dump({"mode": "hashseed", "property": "C08", "case": case, "hashseeds": [seeds[0], hs], "violation": bad,
